@@ -507,17 +507,33 @@ theorem parseList_ok (cfg : MdCfg) (pm : ParseMethod) (hpm : PMGrammar cfg pm)
   · simp only [pure_bind]
     exact hjp _ (Keeps.refl h)
 
+/-- `math.parse_block_math` -/
+theorem parseBlockMath_ok (cfg : MdCfg) (mx : Nat) (mt : RxMatch) (st : BlockState) (h : TokensOk mx st) :
+    Sat (GPost mx st) (parseBlockMath cfg mt st) := by
+  unfold parseBlockMath
+  refine Sat.ok (Keeps.append (Keeps.refl h) ?_)
+  have hd := h.1
+  unfold TokOk gF
+  simp [preSeq, preTok, preView, tok, Json.get?, List.lookup, Json.s, isBlockCtx, optHas, optStr,
+      optArr, optList, attrsOkB, attrsOkT, attrsShape, hd]
+
+/-- `speedup.parse_paragraph` -/
+theorem parseParagraph_ok (mx : Nat) (mt : RxMatch) (st : BlockState) (h : TokensOk mx st) :
+    Sat (GPost mx st) (parseParagraph mt st) := by
+  unfold parseParagraph
+  exact Sat.bind (addParagraph_ok _ _ _ h) (fun a ha => Sat.pure ha)
+
 /-! ### induction on the nesting budget -/
 
 /-- the ATX rules of the configuration (block specification, list-item break rules) capture one to six `#` -/
 def CfgAtx (cfg : MdCfg) : Prop :=
   AtxSc cfg cfg.blockSpec ∧ ∀ bullet lw, AtxSc cfg (listItemSc cfg bullet lw)
 
-/-- no block plugin rule is registered (decidable) -/
+/-- no uncovered block plugin rule is registered (decidable); covered: `paragraph` (speedup), `block_math` (math), the `spoiler` rebinding of
+`block_quote` -/
 def noBlockPlugins (cfg : MdCfg) : Bool :=
   !registered cfg "table" && !registered cfg "nptable" && !registered cfg "ref_footnote" &&
-    !registered cfg "def_list" && !registered cfg "ref_abbr" && !registered cfg "block_math" &&
-    !registered cfg "paragraph" && !spoilerActive cfg && !fencedCodeRebound cfg &&
+    !registered cfg "def_list" && !registered cfg "ref_abbr" && !fencedCodeRebound cfg &&
     !registered cfg "rst_directive" && !registered cfg "fenced_directive"
 
 /-- **every instance of `parse_method` satisfies the grammar contract** -/
@@ -525,7 +541,7 @@ theorem parseMethod_grammar (cfg : MdCfg) (hatx : CfgAtx cfg) (hnp : noBlockPlug
     ∀ fuel, PMGrammar cfg (parseMethod cfg fuel) := by
   intro fuel
   simp only [noBlockPlugins, Bool.and_eq_true, Bool.not_eq_true'] at hnp
-  obtain ⟨⟨⟨⟨⟨⟨⟨⟨⟨⟨p1, p2⟩, p3⟩, p4⟩, p5⟩, p6⟩, p7⟩, p8⟩, p9⟩, p10⟩, p11⟩ := hnp
+  obtain ⟨⟨⟨⟨⟨⟨⟨p1, p2⟩, p3⟩, p4⟩, p5⟩, p9⟩, p10⟩, p11⟩ := hnp
   induction fuel with
   | zero =>
     intro name mt st _ _ _
@@ -542,7 +558,9 @@ theorem parseMethod_grammar (cfg : MdCfg) (hatx : CfgAtx cfg) (hnp : noBlockPlug
     · exact parseIndentCode_ok cfg _ mt st h
     · exact parseThematicBreak_ok _ mt st h
     · exact parseRefLink_ok cfg _ mt st h
-    · rw [p8]; exact parseBlockQuote_ok cfg _ ih hatx.1 mt st h (hc (Or.inl rfl))
+    · split
+      · exact parseBlockSpoiler_ok cfg _ ih hatx.1 mt st h (hc (Or.inl rfl))
+      · exact parseBlockQuote_ok cfg _ ih hatx.1 mt st h (hc (Or.inl rfl))
     · exact parseList_ok cfg _ ih hatx.1 hatx.2 mt st h (hc (Or.inr rfl))
     · exact parseRawHtml_ok cfg _ mt st h
     · exact parseRawHtml_ok cfg _ mt st h
@@ -551,8 +569,12 @@ theorem parseMethod_grammar (cfg : MdCfg) (hatx : CfgAtx cfg) (hnp : noBlockPlug
     · rw [p3]; exact Sat.err
     · rw [p4]; exact Sat.err
     · rw [p5]; exact Sat.err
-    · rw [p6]; exact Sat.err
-    · rw [p7]; exact Sat.err
+    · split
+      · exact parseBlockMath_ok cfg _ mt st h
+      · exact Sat.err
+    · split
+      · exact parseParagraph_ok _ mt st h
+      · exact Sat.err
     · rw [p10]; exact Sat.err
     · rw [p11]; exact Sat.err
     · exact Sat.err
